@@ -24,14 +24,15 @@ Lemma accepts_nil : forall a, accepts a a [].
 Proof. intros a ev acc. exists ev, acc. reflexivity. Qed.
 
 (* ---- character data --------------------------------------------------------------------------------------- *)
-Lemma xrun_chardata : forall w st ev v, has 60 w = false ->
+Lemma xrun_chardata : forall w st ev v, has 60 w = false -> has 62 w = false ->
   xrun (mkPst st ev [] [] [] (MContent v)) w
   = match vrun v w with Some v' => Some (mkPst st ev [] [] [] (MContent v')) | None => None end.
 Proof.
-  induction w as [|c t IH]; intros st ev v H; [reflexivity|].
-  unfold has in H. cbn [existsb] in H. apply orb_false_elim in H. destruct H as [H1 H2].
-  cbn [xrun xstep vrun]. assert (E : (c =? 60) = false) by lia. rewrite E.
-  destruct (vstep v c) as [v'|]; [|reflexivity]. apply IH. exact H2.
+  induction w as [|c t IH]; intros st ev v H G; [reflexivity|].
+  unfold has in H, G. cbn [existsb] in H, G. apply orb_false_elim in H. destruct H as [H1 H2].
+  apply orb_false_elim in G. destruct G as [G1 G2].
+  cbn [xrun xstep vrun]. assert (E : (c =? 60) = false) by lia. assert (E2 : (c =? 62) = false) by lia. rewrite E, E2. cbn [andb].
+  destruct (vstep v c) as [v'|]; [|reflexivity]. apply IH; assumption.
 Qed.
 
 Lemma has_lt_free : forall nl quot s, has 60 (flat_map (esc nl quot) s) = false.
@@ -46,7 +47,7 @@ Qed.
 Lemma accepts_text : forall a s, forallb is_xml_char s = true -> accepts a a (xml_escape s).
 Proof.
   intros a s H ev acc. exists ev, (rev s ++ acc). unfold cst.
-  rewrite xml_escape_esc, xrun_chardata by apply has_lt_free. rewrite vrun_esc by exact H. reflexivity.
+  rewrite xml_escape_esc, xrun_chardata by (apply has_lt_free || apply has_gt_free). rewrite vrun_esc by exact H. reflexivity.
 Qed.
 Lemma accepts_space : forall a, accepts a a [32].
 Proof. intros a ev acc. exists ev, (32 :: acc). reflexivity. Qed.
@@ -245,16 +246,16 @@ Lemma payload_step_accepted : forall legacy line open n, node_ok n -> accepted (
 Proof.
   intros legacy line open n Hn A. destruct n as [s| |attrs|]; cbn [payload_step fst snd].
   - apply (accepted_app (stk open) (stk open)); [exact A|].
-    apply (accepts_app _ (stk open)); [apply accepts_text; exact Hn|]. destruct legacy; [apply accepts_space|apply accepts_nil].
+    apply accepts_text; exact Hn.
   - apply (accepted_app (stk open) (stk open)); [apply rstrip_accepted; exact A|apply accepts_br].
   - destruct (span_attrs attrs) as [|c0 t0] eqn:E; cbn [fst snd]; [exact A|].
     rewrite <- E. clear E c0 t0.
-    assert (Cl : accepted [] (if open then rstrip line ++ close_span else line)).
-    { destruct open; [|exact A]. apply (accepted_app [span_name] []); [apply rstrip_accepted; exact A|apply accepts_close_span]. }
+    assert (Cl : accepted [] (if open then line ++ close_span else line)).
+    { destruct open; [|exact A]. apply (accepted_app [span_name] []); [exact A|apply accepts_close_span]. }
     change (stk true) with [span_name].
     apply (accepted_app [] [span_name]); [exact Cl|apply accepts_open_span; exact Hn].
   - destruct open; cbn [fst snd]; [|exact A].
-    apply (accepted_app [span_name] []); [apply rstrip_accepted; exact A|apply accepts_close_span].
+    apply (accepted_app [span_name] []); [exact A|apply accepts_close_span].
 Qed.
 
 Lemma payload_fold_accepted : forall legacy nodes line open, Forall node_ok nodes -> accepted (stk open) line ->
@@ -333,7 +334,7 @@ Proof.
   destruct (lookup (lit "class") content) as [c|] eqn:E1;
   [destruct (existsb (str_eqb c) ids)|];
   destruct (lookup (lit "text-align") content) as [v2|] eqn:E2;
-  destruct (lookup (lit "italics") content) as [v3|] eqn:E3;
+  destruct (lookup (lit "italics") content) as [[|v3a v3]|] eqn:E3;
   destruct (lookup (lit "font-family") content) as [v4|] eqn:E4;
   destruct (lookup (lit "font-size") content) as [v5|] eqn:E5;
   destruct (lookup (lit "color") content) as [v6|] eqn:E6;
